@@ -22,10 +22,19 @@ import (
 )
 
 const (
-	repoDir  = "/repo"
 	verifDir = "/verif"
 	goBin    = "go1.26.8"
 )
+
+// repoDir is /repo. VERIF_REPO_OVERRIDE points the build at another checkout of the repository; it
+// exists for trying seeded defects in a scratch worktree without touching /repo while other checks
+// run, and is never set by the commands registered in MANIFEST.json.
+var repoDir = func() string {
+	if d := os.Getenv("VERIF_REPO_OVERRIDE"); d != "" {
+		return d
+	}
+	return "/repo"
+}()
 
 type propInfo struct {
 	ID        string
